@@ -11,7 +11,7 @@ CHECKS = {
         "exploration",
         "enum",
         "bounded-exhaustive enumeration of PDU values through the real primitive/PDU/bytes round trip against an independent reference codec in both directions",
-        "Values of all seven PDU types over per-field domains (AE titles, UIDs of 1..64 characters, context IDs, all legal result/source/reason codes, 1..3 presentation contexts x 1..3 transfer syntaxes, every combination and multiplicity <= 2 of the optional user-information sub-item kinds, user-identity types 1..5 with field lengths 1..300, P-DATA lists of 1..3 PDVs up to 70000 bytes): the produced bytes are decoded by a strict reference decoder that verifies every length field, compared by value and byte for byte with the PS3.8 layout, decoded and re-encoded by the implementation, converted back to primitives, and the reference encoding of the same value is decoded by the implementation.",
+        "Values of all seven PDU types over per-field domains (AE titles, UIDs of 1..64 characters, context IDs, all legal result/source/reason codes, 1..3 presentation contexts x 1..3 transfer syntaxes, every combination and multiplicity <= 2 of the optional user-information sub-item kinds, user-identity types 1..5 with field lengths 1..300, P-DATA lists of 1..3 PDVs up to 70000 bytes, and every opaque octet field filled with 53 byte strings that begin / end with or consist of 0x00, space, 0xFF, LF): the produced bytes are decoded by a strict reference decoder that verifies every length field, compared by value and byte for byte with the PS3.8 layout, decoded and re-encoded by the implementation, converted back to primitives, and the reference encoding of the same value is decoded by the implementation.",
         "Reference codec transcribed from PS3.8 9.3 / PS3.7 D.3.3 (vk/ref/codec.py); sub-item order is not prescribed by the standard and is compared as a multiset.",
         "3/C01",
     ),
@@ -35,7 +35,7 @@ CHECKS = {
         "model_checking",
         "tlc",
         "TLC explicit-state exploration of an independent TLA+ transcription of PS3.8 9.2; every edge and non-edge of the dumped graph replayed on the real StateMachine.do_action",
-        "TLC enumerates the complete transition relation of models/PS38.tla (all 13 states x 19 events x roles x protocol-version) and checks the transcription's own invariants; all 988 (state,event,role,pv) cases - 492 edges and 496 non-edges - are replayed on the real state machine with a recording socket and the real ARTIM timer on a fake clock (every edge from three timer histories: never started, running, stopped) and the next state and full effect set compared, the ARTIM effect by whether the real timer subsequently expires.  The space is finite and completely covered.",
+        "TLC enumerates the complete transition relation of models/PS38.tla (all 13 states x 19 events x roles x protocol-version) and checks the transcription's own invariants; all 988 (state,event,role,pv) cases - 492 edges and 496 non-edges - are replayed on the real state machine with a recording socket and the real ARTIM timer on a fake clock (every edge from three timer histories: never started, running, stopped) and the next state and full effect set compared, the ARTIM effect by whether the real timer subsequently expires; in addition every two-step trace of the model (2111 pairs of consecutive edges) is replayed on one provider object and the second action compared the same way.  The space is finite and completely covered.",
         "Trusts TLC, the transcription of PS3.8 in models/PS38.tla (DESIGN.md A.3) and the recording doubles under the real AssociationSocket/Timer.",
         "3/C04",
     ),
@@ -43,7 +43,7 @@ CHECKS = {
         "model_checking",
         "sim",
         "explicit-state BFS over event histories at quiescent states of the real code (canonical-state de-duplication) plus deviation-bounded exhaustive schedule exploration",
-        "The real provider/association/ACSE code runs as coroutines under a controlled scheduler with virtual time and simulated sockets.  Layer A enumerates every history (peer PDUs of 17 kinds, close, reset, timer expiry, local user calls) up to the reported depth with canonical-state merging and closes each with a silent peer; layer B enumerates every schedule of the two-AE life-cycle scenarios with at most D deviations from the default scheduler.  Monitors: no undefined event / uncaught exception in any thread, provider back in Sta1, thread finished, transport closed.",
+        "The real provider/association/ACSE code runs as coroutines under a controlled scheduler with virtual time and simulated sockets.  Layer A enumerates every history (peer PDUs of 15 kinds, 48 bursts of two PDUs in one segment, first bytes sent right after connect, close, reset, timer expiry and peer actions racing a deadline, local user calls) up to the reported depth with canonical-state merging and closes each with a silent peer; layer B enumerates every schedule of the two-AE life-cycle scenarios with at most D deviations from the default scheduler.  Monitors: no undefined event / uncaught exception in any thread, provider back in Sta1, thread finished, transport closed.",
         "Thread switches only at OS-service calls and watched shared flags (CPython bytecode atomicity assumed); socket/queue/event doubles validated against the OS by the fidelity self-test; bounds as reported in evidence.",
         "3/C05",
     ),
@@ -83,7 +83,7 @@ CHECKS = {
         "exploration",
         "enum",
         "bounded-exhaustive enumeration of proposals x supported configurations x role proposals through the real negotiation functions against a reference model",
-        "Every combination of 1-2 (thorough: 3) proposed contexts over five kinds of abstract syntax with duplicates, transfer-syntax lists, supported configurations (absent or preference list with roles in {None,True,False}^2) and role proposals {absent,TT,TF,FT,FF}, plus a 128-context proposal, is run through negotiate_as_acceptor and negotiate_unrestricted and compared with vk/ref/neg.py: one result per ID with the proposed abstract syntax, result codes, acceptor-preferred transfer syntax, granted roles, role replies never exceeding the proposal, never accepted without a role.",
+        "Every combination of 1-2 (thorough: 3) proposed contexts over five kinds of abstract syntax with duplicates, transfer-syntax lists, supported configurations (absent or preference list with roles in {None,True,False}^2) and role proposals {absent,TT,TF,FT,FF}, plus a 128-context proposal and every ordered non-empty sub-list of four transfer syntaxes on both sides (64 x 64), is run through negotiate_as_acceptor and negotiate_unrestricted and compared with vk/ref/neg.py: one result per ID with the proposed abstract syntax, result codes, acceptor-preferred transfer syntax, granted roles, role replies never exceeding the proposal, never accepted without a role.",
         "Reference transcribed from PS3.8 / PS3.7 D.3.3.4 and the documented role table; role proposals restricted to what the wire can carry (booleans).",
         "3/C10",
     ),
@@ -115,7 +115,7 @@ CHECKS = {
         "exploration",
         "enum",
         "exhaustive enumeration of handler result shapes and of every status of each service's table through the real SCP implementations against the documented mapping",
-        "For C-FIND/C-GET/C-MOVE every status of the service's table (as int and as status dataset with optional elements), eight malformed or raising shapes, and a dataset pool under four transfer syntaxes; for C-ECHO, C-STORE and the six DIMSE-N services 11 status shapes x 4 dataset shapes + 5 special shapes: the response status must be the supplied one (status elements copied) or the documented failure code (0xC001, 0xC002, 0xC211, 0xC311/0xC411/0xC511, 0xC312, 0x0110, C-ECHO 0x0000) and response datasets must decode equal to the handler's under the negotiated transfer syntax.",
+        "For C-FIND/C-GET/C-MOVE every status of the service's table (as int and as status dataset with optional elements), eight malformed or raising shapes, and a dataset pool under four transfer syntaxes; for C-ECHO, C-STORE and the six DIMSE-N services 12 status shapes (incl. optional status elements with falsy values) x 4 dataset shapes + 5 special shapes, the dataset-bearing DIMSE-N responses under all four uncompressed / deflated transfer syntaxes: the response status must be the supplied one (status elements copied) or the documented failure code (0xC001, 0xC002, 0xC211, 0xC311/0xC411/0xC511, 0xC312, 0x0110, C-ECHO 0x0000) and response datasets must decode equal to the handler's under the negotiated transfer syntax.",
         "Recording DIMSE double runs the real primitive-to-message conversion and fragmentation; data-set equality uses pydicom's codec.",
         "3/C21",
     ),
@@ -139,7 +139,7 @@ CHECKS = {
         "exploration",
         "enum",
         "enumeration of AE configurations, each run as a real association under the simulator, with the RQ/AC bytes from the wire tap checked by a strict reference decoder",
-        "363 configurations (1..128 requested contexts with repeated abstract syntaxes, context objects handed to associate() that already carry IDs (every assignment of {none,1,3,5,255} to 2 and 3 contexts), AE titles, maximum PDU sizes, implementation UID / version names, every subset of extended-negotiation items incl. user identity types 1..5): the A-ASSOCIATE-RQ and the A-ASSOCIATE-AC/RJ on the wire are decoded by the strict reference decoder (every length field verified) and checked for 1..128 contexts with distinct odd IDs, one abstract and >= 1 transfer syntax each, exactly one application-context and user-information item with exactly one maximum-length and implementation-class item, one result per proposed context, a transfer syntax on every accepted item, legal non-blank AE titles and legal UIDs.",
+        "447 configurations (1..128 requested contexts with repeated abstract syntaxes, context objects handed to associate() that already carry IDs (every assignment of {none,1,3,5,255} to 2 and 3 contexts), AE titles incl. space-padded values beyond 16 characters (whatever the API accepts must come out as a legal 16-byte field), maximum PDU sizes, implementation UID / version names, every subset of extended-negotiation items incl. user identity types 1..5): the A-ASSOCIATE-RQ and the A-ASSOCIATE-AC/RJ on the wire are decoded by the strict reference decoder (every length field verified) and checked for 1..128 contexts with distinct odd IDs, one abstract and >= 1 transfer syntax each, exactly one application-context and user-information item with exactly one maximum-length and implementation-class item, one result per proposed context, a transfer syntax on every accepted item, legal non-blank AE titles and legal UIDs.",
         "Structural rules from PS3.8 9.3.2/9.3.3 and PS3.5.",
         "3/C12",
     ),
@@ -155,7 +155,7 @@ CHECKS = {
         "model_checking",
         "sim",
         "deviation-bounded exhaustive exploration of the interleavings of N+1 concurrent association negotiations against a real acceptor AE",
-        "A real acceptor AE with maximum_associations = L and L+1 (thorough also L+2) real requestors connecting at once, plus staggered arrivals while an earlier association is being released: every schedule with at most D deviations (D=1 quick, 2 thorough) of the server, negotiation, provider and user threads; at every EVT_ESTABLISHED the simultaneously established acceptor associations are counted against L and every rejection must carry (transient, presentation, local-limit-exceeded).",
+        "A real acceptor AE with maximum_associations = L and L+1 (thorough also L+2) real requestors connecting at once, served by the single-threaded and by the threaded association server (one handler thread per connection), plus staggered arrivals while an earlier association is being released and a slow acceptor-side handler at each of seven early events: every schedule with at most D deviations (D=1; thorough D=2 for the smallest crowd) of the server, negotiation, provider and user threads; at every EVT_ESTABLISHED the simultaneously established acceptor associations are counted against L and every rejection must carry (transient, presentation, local-limit-exceeded).",
         "Same trusted base as C05/C06; over-rejection while negotiations overlap is allowed by the property.",
         "3/C14",
     ),
@@ -163,7 +163,7 @@ CHECKS = {
         "exploration",
         "enum",
         "exhaustive enumeration of message types x data-set parameter shapes through the real conversion/fragmentation/reassembly, plus end-to-end runs of every send_* operation between two real AEs under the simulator",
-        "All 23 message types with absent / empty / non-empty data set: the command set must announce a data set exactly when data-set fragments are sent and the real decode_msg must complete the message.  52 end-to-end scenarios (10 public send_* operations x request data set x response data set incl. empty pydicom Datasets and None) between two real AEs: the peer's handler is invoked, the SCU gets its status, nobody waits for the DIMSE timeout, the association survives.",
+        "All 23 message types with absent / empty / non-empty data set, and every data-set-bearing type with data-set lengths around the multiples of the fragment size for maximum lengths {16382, 32, 0} (all primitives produced before any is consumed): the command set must announce a data set exactly when data-set fragments are sent and the real decode_msg must complete the message without raising.  52 end-to-end scenarios (10 public send_* operations x request data set x response data set incl. empty pydicom Datasets and None) between two real AEs: the peer's handler is invoked, the SCU gets its status, nobody waits for the DIMSE timeout, the association survives.",
         "End-to-end layer uses the simulator (default schedule; thorough: <= 1 deviation).",
         "3/C16",
     ),
@@ -179,7 +179,7 @@ CHECKS = {
         "exploration",
         "enum",
         "complete enumeration of context IDs 0..255 x request types x accepted sets through the real request-dispatch paths",
-        "For three accepted-context sets every context ID 0..255 is combined with all 11 request types through the real Association._serve_request and with C-STORE sub-operation requests through the real _wrap_get_move_responses/_c_store_scp path, with recording handlers bound to every C-/N- intervention event: an ID outside the accepted set must invoke no handler and receive no success / pending / warning response.",
+        "For three accepted-context sets every context ID 0..255 is combined with all 11 request types through the real Association._serve_request and with C-STORE sub-operation requests through the real _wrap_get_move_responses/_c_store_scp path, with recording handlers bound to every C-/N- intervention event; a pipelined layer sends, through the real reactor under the simulator, a C-ECHO on an accepted context immediately followed by a second request (6 types) on every context ID, incl. requests whose command set is on a non-accepted ID while the data-set fragments carry an accepted one: an ID outside the accepted set must invoke no handler and receive no success / pending / warning response.",
         "Requests are delivered as decoded primitives; DIMSE provider is a recording double.",
         "3/C19",
     ),
@@ -187,7 +187,7 @@ CHECKS = {
         "model_checking",
         "sim",
         "enumeration of every arrival point and message-ID relation of C-CANCEL relative to two consecutive operations on the real acceptor, with deviation-bounded schedule exploration",
-        "A byte-level raw peer runs two consecutive C-FIND / C-GET operations (equal or different message IDs) whose handler polls is_cancelled before each yield, and sends C-CANCEL with the ID of the running, the other or neither operation while idle before / between / after the operations and at every poll (handler held until the provider thread has taken the cancel in), plus 9..12 stale cancels; default schedule for all 166 scenarios and every schedule with <= 1 deviation for the C-FIND n=1 family.  A handler may see True only at the poll following a cancel with its own ID that arrived while it ran.",
+        "A byte-level raw peer runs two consecutive C-FIND / C-GET operations (equal or different message IDs, incl. the IDs 0 and 65535) whose handler polls is_cancelled before each yield, and sends C-CANCEL with the ID of the running, the other or neither operation while idle before / between / after the operations and at every poll (handler held until the provider thread has taken the cancel in), plus 9..12 stale cancels; default schedule for all 166 scenarios and every schedule with <= 1 deviation for the C-FIND n=1 family.  A handler may see True only at the poll following a cancel with its own ID that arrived while it ran.",
         "Same trusted base as C05/C06.",
         "3/C23",
     ),
@@ -195,7 +195,7 @@ CHECKS = {
         "exploration",
         "enum",
         "bounded-exhaustive enumeration of peer response sequences through the real SCU response iterators with a scripted DIMSE provider, against a reference iteration",
-        "Every peer response sequence up to length 3 (thorough 4) over 10/11 kinds (Pending with valid / undecodable / missing identifier, final statuses of every category with and without identifiers, response without Status, wrong message type, C-STORE sub-operation requests on valid and invalid contexts, nothing until the timeout) is fed to the real send_c_find / send_c_get / send_c_move iterators and 7 single-response calls x 4 peer behaviours; yields are compared one to one with a reference iteration, aborts where documented, and the AE lock and reactor checkpoint are inspected at every suspension and at the end.",
+        "Every peer response sequence up to length 3 (thorough 4) over 11/12 kinds (Pending with valid / undecodable at stream level / undecodable only when read / missing identifier, final statuses of every category with and without identifiers, response without Status, wrong message type, C-STORE sub-operation requests on valid and invalid contexts, nothing until the timeout) is fed to the real send_c_find / send_c_get / send_c_move iterators and 7 single-response calls x 4 peer behaviours; yields are compared one to one with a reference iteration, aborts where documented, and the AE lock and reactor checkpoint are inspected at every suspension and at the end.",
         "DIMSE provider is scripted; identifiers that make pydicom raise stand for undecodable data.",
         "3/C24",
     ),
@@ -211,7 +211,7 @@ CHECKS = {
         "model_checking",
         "sim",
         "differential replay of identical recorded schedules of the real code with and without raising notification handlers (deviation-bounded exhaustive)",
-        "Every life-cycle scenario is executed in pairs under the same recorded schedule: all handlers returning vs. a raising handler for each of the 17 notification events alone (default schedule; D=1 thorough) and for all events at once (all schedules with <= 1 deviation); every byte on the wire in both directions, both outcomes, terminal events and uncaught exceptions must be identical.  Nine intervention-handler scenarios with raising handlers check the documented failure status / rejection.",
+        "Every life-cycle scenario is executed in pairs under the same recorded schedule: all handlers returning vs. a raising handler for each of the 17 notification events alone (default schedule; D=1 thorough) and for all events at once (all schedules with <= 1 deviation), with six kinds of exception (ordinary message, empty text, failed assert, multi-line, non-ASCII / format-like text, text that cannot be produced); every byte on the wire in both directions, both outcomes, terminal events and uncaught exceptions must be identical.  Nine intervention-handler scenarios with raising handlers check the documented failure status / rejection.",
         "Same trusted base as C05/C06; raising handlers are bound after the observing handlers because pynetdicom stops calling an event's remaining handlers once one raises.",
         "3/C26",
     ),
@@ -219,7 +219,7 @@ CHECKS = {
         "model_checking",
         "sim",
         "history monitor evaluated on every execution of a deviation-bounded exhaustive schedule exploration of two real AEs",
-        "Every schedule with at most D deviations of all 25 two-AE life-cycle scenarios is executed on the real code with recording handlers bound to all notification events and a wire tap on the simulated connection; the monitor checks FSM-transition chaining, connection open/close ordering and multiplicity, established-before-terminal, and equality of PDU/DATA notifications with the bytes that crossed the wire.",
+        "Every schedule with at most D deviations of all 25 two-AE life-cycle scenarios is executed on the real code with recording handlers bound to all notification events and a wire tap on the simulated connection; a second layer runs the real side against 11 scripted raw peers that end by staying silent with the connection open, with the 1st..8th (thorough 12th) invocation of the handler of each of the 17 notification events taking longer than the ARTIM time-out; the monitor checks FSM-transition chaining, connection open/close ordering and multiplicity, established-before-terminal, and equality of PDU/DATA notifications with the bytes that crossed the wire.",
         "Same trusted base as C05/C06; bytes written to a connection whose peer already closed count as having crossed the wire.",
         "3/C27",
     ),
@@ -235,7 +235,7 @@ CHECKS = {
         "exploration",
         "enum",
         "bounded-exhaustive enumeration of small databases x identifiers (every matching type per key at every level) through the real qrscp search()/handle_find() over SQLite against a reference matcher",
-        "Every database of <= 3 instances out of a 7-instance universe (plus the full universe; quick tier every k-th database) whose values separate literal characters from SQL wildcards and upper from lower case, combined with ~400 identifiers: every query level of both information models, every matching type per key (absent, universal, single value, * and ? wildcards, UID list, the three range forms), invalid hierarchies, and the C-GET/C-MOVE restriction to unique keys; the set of entities returned by the real search() and the responses of handle_find() must equal the set selected by the PS3.4 C.2.2.2 / C.4.1 reference, one response per entity.",
+        "Every database of <= 3 instances out of an 8-instance universe incl. series / instance numbers 0 (plus the full universe; quick tier every k-th database) whose values separate literal characters from SQL wildcards and upper from lower case, combined with ~400 identifiers: every query level of both information models, every matching type per key (absent, universal, single value, * and ? wildcards, UID list, the three range forms), invalid hierarchies, and the C-GET/C-MOVE restriction to unique keys; the set of entities returned by the real search() and the responses of handle_find() must equal the set selected by the PS3.4 C.2.2.2 / C.4.1 reference, one response per entity.",
         "Reference matcher transcribed from PS3.4 (vk/ref/match.py); PN case sensitivity is left unconstrained; the DIMSE layer is not involved.",
         "3/C29",
     ),
@@ -243,7 +243,7 @@ CHECKS = {
         "exploration",
         "enum",
         "bounded-exhaustive enumeration of SOP Instance / SOP Class UID strings over a path-metacharacter alphabet through the real handle_store of qrscp and storescp inside a snapshotted jail directory",
-        "All strings of length <= 3 (thorough 4) over {'1', '.', '/', '\\\\', '~', NUL}, every string of length <= 2 followed by each of three traversal tails, and 20 hostile strings (relative and absolute traversal, drive / UNC forms, newline, 300 characters) are used as SOP Instance UID (and the hostile and short ones as SOP Class UID) of a C-STORE event handed to the real handle_store of both apps, with the storage directory three levels deep in a jail containing decoy sub-directories; the complete jail is snapshotted before and after each call and everything created or modified must lie inside the storage directory (or be the database file).",
+        "All strings of length <= 3 (thorough 4) over {'1', '.', '/', '\\\\', '~', NUL}, every string of length <= 2 followed by each of three traversal tails, runs of six filler characters at 14 lengths from 63 to 4097 followed by each of six tails, and 20 hostile strings (relative and absolute traversal, drive / UNC forms, newline, 300 characters) are used as SOP Instance UID (and the hostile and short ones as SOP Class UID) of a C-STORE event handed to the real handle_store of both apps, with the storage directory three levels deep in a jail containing decoy sub-directories; the complete jail is snapshotted before and after each call and everything created or modified must lie inside the storage directory (or be the database file).",
         "Handlers are called with an event double carrying a real pydicom Dataset; POSIX path semantics; symlinks inside the storage directory are not part of the alphabet.",
         "3/C30",
     ),
